@@ -76,7 +76,25 @@ static void timer_case_once(long long n, uint64_t seed, bool report)
 		for (int round = 0; round < rounds && slot < Monitor::NSLOT; ++round) {
 			const int cnt = (int)r.range(1, std::min<long long>(6, Monitor::NSLOT - slot));
 			unsigned maxd = 0;
-			for (int i = 0; i < cnt; ++i, ++slot) {
+			if (r.chance(20) && slot + 2 <= Monitor::NSLOT) {
+				// two events due in the same wake-up of the timer thread: a slow callback first, a repeating event right behind it.  The
+				// repeat's next run is due one interval after ITS run, not one interval after the wake-up began.
+				const unsigned dly = (unsigned)r.range(70, 200);
+				for (int i = 0; i < 2; ++i, ++slot) {
+					Ev e{};
+					e.slot = slot; e.delay_ms = dly; e.repeat = i == 1; e.true_runs = i == 1 ? (int)r.range(1, 2) : 0; e.epoch = epoch;
+					mon.true_runs[slot] = e.true_runs;
+					mon.work_us[slot] = i == 0 ? (int)(dly / 2 + r.range(50, 80)) * 1000 : 0;
+					e.t_before = now_ns();
+					timer.schedule(TimerEvent<Monitor>(cbs[slot], e.repeat), e.delay_ms);
+					e.t_after = now_ns();
+					e.ticket_after = g_ticket.load();
+					evs.push_back(e);
+					maxd = std::max(maxd, dly * (unsigned)(e.true_runs + 1) + dly);
+				}
+				R.stat("same_wakeup_pairs");
+			}
+			for (int i = 0; i < cnt && slot < Monitor::NSLOT; ++i, ++slot) {
 				Ev e{};
 				e.slot = slot;
 				e.delay_ms = (unsigned)(r.chance(30) ? r.range(1, 5) : r.range(1, 200));
